@@ -1,6 +1,7 @@
 package processor
 
 import (
+	"github.com/lab5e/lospan/pkg/verifgate"
 	"time"
 
 	"github.com/lab5e/lospan/pkg/lg"
@@ -125,8 +126,10 @@ func (d *Decrypter) processMessage(device *model.Device, decoded server.LoRaMess
 		lg.Warning("Unable to retrieve downstream message for device %s: %v", device.DeviceEUI, err)
 	}
 
+	verifgate.Gate("handoff:macOutput")
 	d.macOutput <- decoded
 
+	verifgate.Gate("publish")
 	d.context.AppRouter.Publish(application.AppEUI, &server.PayloadMessage{
 		Payload:      decoded.Payload.MACPayload.FRMPayload,
 		Device:       *device,
@@ -194,12 +197,17 @@ func (d *Decrypter) Start() {
 	}
 	for m := range d.input {
 		go func(decoded server.LoRaMessage) {
+			verifgate.Gate("enter:handler")
+			defer verifgate.Gate("exit:handler")
 			if decoded.FrameContext.GatewayContext.RawMessage == nil {
 				lg.Error("Missing raw message representation. Unable to proceed.")
 				return
 			}
 			if decoded.Payload.MHDR.MType == protocol.JoinRequest {
+				verifgate.Gate("spawn:join")
 				go func() {
+					verifgate.Gate("enter:join")
+					defer verifgate.Gate("exit:join")
 					if !d.verifyJoinRequestMIC(decoded) {
 						return
 					}
